@@ -15,3 +15,14 @@ Theorem C01_rule_is_documented :
   forall nw, net_wf_b nw = true -> forall a b, can_reach nw a b = true <-> Reach nw (nd nw a) (nd nw b).
 Proof. exact can_reach_iff. Qed.
 Print Assumptions C01_rule_is_documented.
+
+(** End to end on the functional model of the pipeline (PipelineSched.v: from_tours of the decoded flow tours,
+    improve_depots, any trajectory through the enumerated neighbours, the optimiser's cycles, the final alignment;
+    compared with the implementation on every run, including each accepted local-search step): for every LOADED
+    network, every result of the pipeline has valid tours, exact listings, formations within formation and track
+    limits, exact depot usage, truthful cached violation / costs / unserved passengers, and every vehicle ends in the
+    depot where its successor in the final rotation cycles starts. *)
+From RS Require Import Schedule SchedInv SchedStruct PipelineSched PipelineSchedFacts.
+Theorem C01_pipeline_result_valid : forall i perm nw, load i perm = Ok nw -> stmt_pipeline_valid nw.
+Proof. exact pipeline_valid_loaded. Qed.
+Print Assumptions C01_pipeline_result_valid.
